@@ -136,6 +136,7 @@ class AcgtOracles(Oracles):
         Oracles.__init__(self, script)
         self.avx2 = avx2
         self.paths = []
+        self.block_valid = lambda blk: True
 
     @staticmethod
     def idx_of(v):
@@ -175,7 +176,10 @@ class AcgtOracles(Oracles):
                 else:
                     self.paths.append(("vector", i))
                 ids.append(i)
-            return Tup([Opaque("__m256i", {"conv"}, {"ids": ids}), mkbool(True)])
+            # the second component says whether all 32 bytes were ACGT letters: a fact about the data, scripted per 32-byte block
+            first = [i_ for i_ in ids if isinstance(i_, int)]
+            blk = (first[0] // 32) if first else 0
+            return Tup([Opaque("__m256i", {"conv"}, {"ids": ids}), mkbool(self.block_valid(blk))])
         if p == "bitops_avx2::pack_32_bases":
             x = args[0]
             ids = x.info.get("ids") if isinstance(x, Opaque) else None
@@ -191,6 +195,11 @@ class AcgtOracles(Oracles):
         return NotImplemented
 
 
+def _acgt_valid_patterns():
+    return (("all blocks pure ACGT", lambda b: True), ("no block pure ACGT", lambda b: False),
+            ("odd blocks hold other bytes", lambda b: b % 2 == 0), ("even blocks hold other bytes", lambda b: b % 2 == 1))
+
+
 def from_acgt_bytes_lemma(F, rep, rule="C16.3", maxn=100):
     try:
         dt = DnaT(F)
@@ -204,20 +213,26 @@ def from_acgt_bytes_lemma(F, rep, rule="C16.3", maxn=100):
         return
     for avx2 in (True, False):
         for n in range(0, maxn + 1):
-            okey = "from_acgt_bytes/avx2=%s/n=%d" % (avx2, n)
+            # which 32-byte blocks the vector kernel reports as pure ACGT is a fact about the data: scripted (only lengths with a second
+            # block can tell the patterns apart; the result is specified the same way whatever the kernel reports)
+            pats = _acgt_valid_patterns() if (avx2 and n >= 64 and n in (64, 65, 96, 97, 100)) else _acgt_valid_patterns()[:1]
+            for pi, (pname, pat) in enumerate(pats):
+                okey = "from_acgt_bytes/avx2=%s/n=%d%s" % (avx2, n, "" if pi == 0 else "/" + pname.replace(" ", "-"))
 
-            def f(n=n, avx2=avx2, okey=okey):
-                h = AcgtOracles([], avx2)
-                bytes_ = [Int(8, False, bits=[TOP] * 8, tags=frozenset({"byte:%d" % i})) for i in range(n)]
-                r, _ = run_inst(F, key, [Ref(Cell(Arr(bytes_), "bytes"))], h)
-                ws = dt.words("c", n)
-                ok = expect_dna(rep, rule, okey, dt, r, ws, n,
-                                "from_acgt_bytes of %d bytes (%s path): base i = base_to_bits(byte i), canonical storage" % (n, "AVX2" if avx2 else "scalar"))
-                if ok:
-                    seen = sorted(i for _, i in h.paths)
-                    if seen != list(range(n)):
-                        rep.violated(rule, okey + "/coverage", "bytes converted: %s; every byte must be converted exactly once" % seen)
-            guarded(rep, rule, okey, "from_acgt_bytes", f)
+                def f(n=n, avx2=avx2, okey=okey, pat=pat, pi=pi, pname=pname):
+                    h = AcgtOracles([], avx2)
+                    h.block_valid = pat
+                    bytes_ = [Int(8, False, bits=[TOP] * 8, tags=frozenset({"byte:%d" % i})) for i in range(n)]
+                    r, _ = run_inst(F, key, [Ref(Cell(Arr(bytes_), "bytes"))], h)
+                    ws = dt.words("c", n)
+                    ok = expect_dna(rep, rule, okey, dt, r, ws, n,
+                                    "from_acgt_bytes of %d bytes (%s path%s): base i = base_to_bits(byte i), canonical storage" % (
+                                        n, "AVX2" if avx2 else "scalar", "" if pi == 0 else "; " + pname))
+                    if ok and pi == 0:
+                        seen = sorted(i for _, i in h.paths)
+                        if seen != list(range(n)):
+                            rep.violated(rule, okey + "/coverage", "bytes converted: %s; every byte must be converted exactly once" % seen)
+                guarded(rep, rule, okey, "from_acgt_bytes", f)
 
 
 def from_str_lemmas(F, rep, rule="C16.6"):
